@@ -56,7 +56,7 @@ def kswin_sensitive(out: Outcome, rng, p: dict, xs: list, runners: list) -> None
         rep = {"class": "KSWIN", "params": q, "stream": xs[:t_star], "step": t_star, "numpy_seed": np_seed, "kind": "sensitive"}
         want = factor > 1
         if run.err is None and bool(run.det.drift) != want:
-            out.violation(f"KSWIN: with alpha set {'above' if want else 'below'} the exact KS p-value {pvals[t_star]!r} of step {t_star} (alpha={q['alpha']!r}) "
+            (out.violation if run.tape_ok else out.mismatch)(f"KSWIN: with alpha set {'above' if want else 'below'} the exact KS p-value {pvals[t_star]!r} of step {t_star} (alpha={q['alpha']!r}) "
                           f"drift={bool(run.det.drift)}", rep)
         runners.append(run)
         out.case({"class": "KSWIN", "sensitive": factor, "W": W, "r": r, "t": t_star}, nontrivial=True)
@@ -90,7 +90,11 @@ def kswin_case(out: Outcome, rng, p: dict, xs: list, runners: list) -> None:
         tape = [int(i) for i in run.lines[-1].split("t=")[1].split(",")]
         pval = float(ks_2samp(np.array([older[i] for i in tape]), np.array(newest), alternative="two-sided", method="auto").pvalue)
         if not near(pval, alpha) and bool(d.drift) != (pval <= alpha):
-            out.violation(f"KSWIN: drift={bool(d.drift)} at step {t} but the KS p-value of (drawn sample, newest {r}) is {pval!r} vs alpha={alpha}", rep)
+            # WHICH sample is drawn is not part of the property (it is decided "independently of which random sample is drawn"): this expectation replays NumPy's
+            # global generator as the current code uses it - a disagreement is a break of that correspondence, the sample-independent clauses are judged below
+            (out.violation if run.tape_ok else out.mismatch)(
+                f"KSWIN: drift={bool(d.drift)} at step {t} but the KS p-value of (the sample drawn from NumPy's global generator, newest {r}) is {pval!r} vs alpha={alpha}"
+                + ("" if run.tape_ok else " - the global generator did not advance as a draw from it would: the code draws its sample elsewhere"), rep)
             break
         fired = fired or bool(d.drift)
         if math.comb(len(older), r) <= 200:
